@@ -1,6 +1,6 @@
 #!/bin/sh
 # runs every check in the thorough tier once (no evidence rewrite); prints one summary line per check
-for c in C10 C11 C16 C04 C08 C09 C12 C15 C17 C20 C01 C02 C03 C05 C06 C07 C13 C14 C18 C19; do
+for c in ${THOROUGH_ORDER:-C19 C13 C01 C15 C07 C16 C17 C09 C03 C11 C10 C06 C14 C02 C05 C12 C20 C04 C08 C18}; do
   start=$(date +%s)
   ./check $c --tier thorough --no-evidence > thorough_$c.log 2>&1
   rc=$?
